@@ -3,7 +3,7 @@ PROP = dict(
         tie_coq=["Properties/TieC05.v"],
         workloads=[
             dict(name="amm-random", go_test="TestC05", runner="C05",
-                 env=dict(quick=dict(VERIF_CASES=3000), thorough=dict(VERIF_CASES=40000))),
+                 env=dict(quick=dict(VERIF_CASES=3000), thorough=dict(VERIF_CASES=20000))),
             dict(name="keeper-orders", go_test="TestC05Keeper", runner="C05-keeper",
                  env=dict(quick=dict(VERIF_CASES=8), thorough=dict(VERIF_CASES=200))),
             dict(name="keeper-f1", go_test="TestC05KeeperHunt", runner="C05-keeper",
@@ -11,7 +11,7 @@ PROP = dict(
             dict(name="amm-exhaustive", go_test="TestC05Exhaustive", runner="C05", tiers=("thorough",),
                  env=dict(thorough=dict(VERIF_C05_EXH=2))),
             dict(name="amm-exhaustive3", go_test="TestC05Exhaustive", runner="C05", tiers=("thorough",),
-                 env=dict(thorough=dict(VERIF_C05_EXH=3, VERIF_C05_STRIDE=397))),
+                 env=dict(thorough=dict(VERIF_C05_EXH=3, VERIF_C05_STRIDE=997))),
             dict(name="amm-exhaustive-single", go_test="TestC05Exhaustive", runner="C05", tiers=("thorough",),
                  env=dict(thorough=dict(VERIF_C05_EXH=2, VERIF_C05_EXH_KIND="single", VERIF_C05_EXH_AMAX=4))),
             dict(name="amm-exhaustive-low", go_test="TestC05Exhaustive", runner="C05", tiers=("thorough",),
@@ -29,7 +29,7 @@ PROP = dict(
              "(60%), the buy side, or both, through MatchAtSinglePrice at p, Match with p as last price and FindMatchPrice+MatchAtSinglePrice; "
              "6 fixed regression cases first (the C05-F1 witness at three levels), then 12 marginal-tick books (inner sell tick 100, marginal sell tick, residue floor / ceil of 1/p at "
              "0.102, 0.3, 0.9, single-price and Match). non-trivial = the call produced at least one fill; distinct by digest "
-             "of (entry point, orders, price). thorough adds every book with <=2 orders per side (and every 397th with <=3), amounts 1..6, four "
+             "of (entry point, orders, price). thorough adds every book with <=2 orders per side (and every 997th with <=3), amounts 1..6, four "
              "neighbouring ticks 0.48-0.51, against each tick as last price; every such book with amounts 1..4 through MatchAtSinglePrice at each of the four ticks (amm-exhaustive-single: inverses 1.96-2.08, "
              "the amounts straddle floor / ceil of 1/p), and every book with <=2 orders per side, amounts 1..5, over the ticks 0.30-0.32 (inverses strictly between 3 and 4) through "
              "MatchAtSinglePrice at each tick (amm-exhaustive-low). keeper-orders: case = the C07 order history through the REAL msg server / EndBlocker (pools on 15% of the pairs), 85% of the "
